@@ -13,6 +13,7 @@ import (
 	"os"
 	"path/filepath"
 	"strings"
+	"time"
 
 	"verifharness/gen"
 	"verifharness/l1sync"
@@ -139,10 +140,13 @@ func main() {
 	}
 
 	// 2. generated histories on real repositories and real index directories
+	tPhase := time.Now()
 	rounds := f.N(3, 4)
-	l1sync.Parallel(f.N(10, 160), f.N(4, 6), func(i int) []gen.Case { return runScenario(f.Seed, i, rounds) }, w)
+	l1sync.Parallel(f.N(20, 200), f.N(4, 6), func(i int) []gen.Case { return runScenario(f.Seed, i, rounds) }, w)
 
 	// 3. planPrune alone on synthetic inventories
+	l1sync.Phase("scenarios", tPhase)
+	tPhase = time.Now()
 	cwd := filepath.Join(env.Work, "plancwd")
 	os.MkdirAll(cwd, 0o755)
 	t, err := l1sync.StartTool(env.Bin, env.Mode, cwd)
@@ -154,4 +158,5 @@ func main() {
 	for i, n := 0, f.N(1500, 40000); i < n; i++ {
 		w.Emit(planCase(t, cwd, r))
 	}
+	l1sync.Phase("plan", tPhase)
 }
